@@ -1070,6 +1070,93 @@ theorem follows_gen (cfg : Cfg σ) (n : Nat) : ∀ (hist : List Cyc), hist.lengt
           rw [hout, hcs]
           exact SegSpec.seg t r.held _ c k b seg rest _ hsw hsel hnone hmax h2
 
+/-- The maximal non-selecting prefix is unique. -/
+theorem maxSplit_unique (p : Cyc → Bool) (a b a' b' : List Cyc) (e : a ++ b = a' ++ b')
+    (ha : ∀ c ∈ a, p c = false) (ha' : ∀ c ∈ a', p c = false)
+    (hb : ∀ c r, b = c :: r → p c = true) (hb' : ∀ c r, b' = c :: r → p c = true) : a = a' ∧ b = b' := by
+  induction a generalizing a' with
+  | nil =>
+    cases a' with
+    | nil => exact ⟨rfl, e⟩
+    | cons c' cs' =>
+      simp only [List.nil_append, List.cons_append] at e
+      have h1 := hb c' (cs' ++ b') e
+      have h2 := ha' c' (by simp)
+      rw [h1] at h2; cases h2
+  | cons c cs ih =>
+    cases a' with
+    | nil =>
+      simp only [List.nil_append, List.cons_append] at e
+      have h1 := hb' c (cs ++ b) e.symm
+      have h2 := ha c (by simp)
+      rw [h1] at h2; cases h2
+    | cons c' cs' =>
+      simp only [List.cons_append, List.cons.injEq] at e
+      have := ih cs' e.2 (fun x hx => ha x (by simp [hx])) (fun x hx => ha' x (by simp [hx]))
+      exact ⟨by rw [e.1, this.1], this.2⟩
+
+/-- `SegSpec` determines the output stream. -/
+theorem SegSpec.unique {cfg : Cfg σ} {t : Nat} {h : Held} {cur : Option Key} {hist : List Cyc} {o1 o2 : List (Option Val)}
+    (s1 : SegSpec cfg t h cur hist o1) (s2 : SegSpec cfg t h cur hist o2) : o1 = o2 := by
+  induction s1 generalizing o2 with
+  | nil t h cur => cases s2; rfl
+  | wait t h c cs outs hck _ ih =>
+    cases s2 with
+    | wait _ _ _ _ outs2 _ s2' => rw [ih s2']
+    | seg _ _ _ _ k b seg rest outs2 hsw => simp [switches, hck] at hsw
+    | fail _ _ _ _ k _ hsw => simp [switches, hck] at hsw
+  | seg t h cur c k b seg rest outs hsw hsel hnone hmax _ ih =>
+    generalize hl : c :: (seg ++ rest) = l at s2
+    cases s2 with
+    | nil => cases hl
+    | wait _ _ c2 cs2 outs2 hck2 _ =>
+      injection hl with e1 _
+      subst e1
+      simp [switches, hck2] at hsw
+    | seg _ _ _ c2 k2 b2 seg2 rest2 outs2 hsw2 hsel2 hnone2 hmax2 s2' =>
+      injection hl with e1 e2
+      subst e1
+      rw [hsw] at hsw2
+      injection hsw2 with hk
+      subst hk
+      rw [hsel] at hsel2
+      injection hsel2 with hb
+      subst hb
+      have hu := maxSplit_unique (fun c => (switches cfg.reload (some k) c).isSome) seg rest seg2 rest2 e2
+        (fun c hc => by simp [hnone c hc]) (fun c hc => by simp [hnone2 c hc]) hmax hmax2
+      obtain ⟨hs, hr⟩ := hu
+      subst hs
+      subst hr
+      rw [ih s2']
+    | fail _ _ _ c2 k2 cs2 hsw2 hsel2 =>
+      injection hl with e1 _
+      subst e1
+      rw [hsw] at hsw2
+      injection hsw2 with hk
+      subst hk
+      rw [hsel] at hsel2
+      cases hsel2
+  | fail t h cur c k cs hsw hsel =>
+    generalize hl : c :: cs = l at s2
+    cases s2 with
+    | nil => cases hl
+    | wait _ _ c2 cs2 outs2 hck2 _ =>
+      injection hl with e1 _
+      subst e1
+      simp [switches, hck2] at hsw
+    | seg _ _ _ c2 k2 b2 seg2 rest2 outs2 hsw2 hsel2 =>
+      injection hl with e1 _
+      subst e1
+      rw [hsw] at hsw2
+      injection hsw2 with hk
+      subst hk
+      rw [hsel] at hsel2
+      cases hsel2
+    | fail _ _ _ c2 k2 cs2 _ _ =>
+      injection hl with _ e2
+      subst e2
+      rfl
+
 /-! ## reachability of the invariants -/
 
 /-- Every cycle either fails (unmatched key) or re-establishes `Timing` for the next cycle. -/
